@@ -55,16 +55,52 @@ class Thr(Engine):
     name = 'thr'
     flavour = 'tsan'
     keep_prefix = 10 ** 6          # no delta debugging: schedules are not reproducible op by op
-    env = {'TSAN_OPTIONS': 'exitcode=0:report_signal_unsafe=0:history_size=4'}
+    env = {'TSAN_OPTIONS': 'exitcode=0:report_signal_unsafe=0:history_size=4', 'VERIF_REFS': refs.REFDIR}
     timeout = 1200
 
     def refs(self):
         if not hasattr(self, '_refs'):
-            self._refs = [(n, p) for n, p in refs.decoded() if not SKIP_REF.search(n) and os.path.getsize(p) < 150000]
+            self._refs = [(n, '@refs/' + n) for n, p in refs.decoded() if not SKIP_REF.search(n) and os.path.getsize(p) < 150000]
         return self._refs
 
     def pick(self, pat):
         return [p for n, p in self.refs() if re.search(pat, n)]
+
+    def unreviewed(self):
+        """Static objects of the regenerated inventory that the review table does not cover: [(file, symbol)]."""
+        cj = json.load(open(CLASSIFIED))
+        known = {(e['file'], e['symbol']) for e in cj['objects']}
+        try:
+            text = open(os.path.join(ROOT, 'lean', 'LA', 'Gen', 'Statics.lean')).read()
+        except OSError:
+            return []
+        out = []
+        for blk in re.findall(r'def (?:elf|alt) : [^\n]*:= \[(.*?)\]\n', text, re.S):
+            for m in re.finditer(r'\("([^"]+)", "([^"]+)", "[^"]*", \d+, (?:true|false)\)', blk):
+                if (m.group(1), m.group(2)) not in known:
+                    out.append((m.group(1), m.group(2)))
+        return out
+
+    def targeted(self, rng, att):
+        """Search guided by the broken obligation: workloads that exercise the file an unreviewed static lives in,
+        several threads on the same and on different inputs."""
+        for file, sym in self.unreviewed()[:4]:
+            m = re.search(r'(?:format|filter)_([a-z0-9]+)', file)
+            key = m.group(1) if m else re.sub(r'^archive_|\.[ch]$', '', file)
+            alias = {'gzip': r'gz|tgz', 'bzip2': r'bz2|tbz', 'xz': r'xz|txz|lzma|lz$', 'compress': r'\.Z$', 'lha': r'lzh', 'tar': r'\.tar$|pax|gtar',
+                     'iso9660': r'iso', 'uu': r'\.uu|uudecode', 'zstd': r'zst', 'cpio': r'cpio', 'ar': r'_ar[._]|\.ar$|\.a$', 'zip': r'\.zip$', '7zip': r'\.7z$'}
+            pat = alias.get(key, re.escape(key))
+            hits = [p for n, p in self.refs() if re.search(pat, n)]
+            wls = []
+            if hits:
+                wls += ['rd ' + p for p in rng.sample(hits, min(4, len(hits)))]
+                wls += ['rd ' + hits[0]] * 2
+            if key in WRITE_FORMATS:
+                wls += [f'wr {key} none {rng.randrange(1000)} 5' for _ in range(3)]
+            if key in WRITE_FILTERS:
+                wls += [f'wr pax {key} {rng.randrange(1000)} 5' for _ in range(3)]
+            if len(wls) >= 2:
+                yield self.case(f'target:{file}:{sym}', wls[:10], att + 5)
 
     def case(self, label, wls, attempts):
         return Case(label, ['wl ' + w for w in wls] + ['solo', 'seq', f'par {attempts}'], {'n': len(wls)})
@@ -78,6 +114,8 @@ class Thr(Engine):
         lha, paxx = self.pick(r'\.lzh$'), self.pick(r'pax_xattr|xattr.*\.tar$|acl_pax')
         zips, comp = self.pick(r'\.zip$'), self.pick(r'\.Z$')
         tars = self.pick(r'\.tar$')
+        for c in self.targeted(rng, att):
+            yield c
         # first use of every lazily initialised table in several threads at once
         yield self.case('lha-first-use', ['rd ' + p for p in rng.sample(lha, 4)], att + 2)
         yield self.case('pax-base64-first-use', ['rd ' + p for p in (paxx * 2)[:4]], att + 2)
@@ -94,7 +132,7 @@ class Thr(Engine):
         for i in range(0, len(fmts), 6):
             yield self.case(f'writers-{i}', [f'wr {f} {rng.choice(WRITE_FILTERS)} {rng.randrange(1000)} {rng.choice([1, 3, 7])}'
                                              for f in fmts[i:i + 6]], att)
-        n = 24 if quick else 400
+        n = 16 if quick else 400
         for i in range(n):
             k = rng.choice([2, 3, 4, 6, 8] if quick else [2, 3, 4, 6, 8, 12, 16])
             wls = []
